@@ -228,6 +228,7 @@ def unpack_impl(pkt, raw, offset, **k):
         tmp_pathname = "%s.%i.%08x.tmp" % (
             module_pathname, os.getpid(), random.getrandbits(32)
         )
+        tmp_is_ours = False
         try:
             # creates folder to host our generated code
             os.makedirs(folder, exist_ok=True)
@@ -241,15 +242,21 @@ def unpack_impl(pkt, raw, offset, **k):
             except (OSError, NotImplementedError):
                 pass
 
-            with open(tmp_pathname, 'w') as module_file:
+            # 'x': the temporary file is never shared, not even with a
+            # process that came up with the same name (same pid in another
+            # pid namespace and the same random state): two writers on one
+            # file can leave a mix that starts and ends as ours.
+            with open(tmp_pathname, 'x') as module_file:
+                tmp_is_ours = True
                 module_file.write(source_code)
 
             os.replace(tmp_pathname, module_pathname)
         except OSError:
-            try:
-                os.remove(tmp_pathname)
-            except OSError:
-                pass
+            if tmp_is_ours:
+                try:
+                    os.remove(tmp_pathname)
+                except OSError:
+                    pass
 
     def generate_unrolled_code_for_descriptor_sync(self, sync_for_pack):
         if sync_for_pack:
